@@ -1,6 +1,6 @@
 From Coq Require Import List NArith Bool Sorted.
 From V.gen Require Consts.
-From V.Ts Require Import Model Proofs Answers Report ReportProofs ReportDead ReportDeadProofs.
+From V.Ts Require Import Model Proofs Answers Extra Exact Multi MultiProofs Report ReportProofs ReportDead ReportDeadProofs.
 Import ListNotations.
 Open Scope N_scope.
 From V.C08 Require Import Properties.
@@ -106,11 +106,43 @@ Check (C08_report_layer_conservative :
   forall l s bs,
   all_base l = Some bs ->
   dfinal (mkD s [] []) l = mkD (rfinal s bs) [] [] /\ drun (mkD s [] []) l = map lift (rrun s bs)).
-Check (C08_established_meets_dead_protocol :
+Check (C08_established_skips_dead :
+  forall d c mask,
+  busy (d_s d) c = false -> d_gone d = [] ->
+  let d' := fst (dstep d (DEst c mask)) in
+  let out := snd (dstep d (DEst c mask)) in
+  do_code out = (if busy (d_s d') c then 1 else 0) /\
+  d_dead d' = d_dead d /\
+  forall p ch', nth_error (r_ch (d_s d')) p = Some ch' ->
+    exists ch, nth_error (r_ch (d_s d)) p = Some ch /\
+               ch' = if is_dead d (N.of_nat p) then ch else send_one (r_cap (d_s d)) c (IEst c) ch).
+Check (C08_closed_reaches_live :
+  forall d c,
+  busy (d_s d) c = false -> d_gone d = [] ->
+  let d' := fst (dstep d (DBase (RClosed c))) in
+  do_code (snd (dstep d (DBase (RClosed c)))) <> 2 /\
+  d_dead d' = d_dead d /\
+  forall p ch', nth_error (r_ch (d_s d')) p = Some ch' ->
+    exists ch, nth_error (r_ch (d_s d)) p = Some ch /\
+               ch' = if is_dead d (N.of_nat p) then ch else send_one (r_cap (d_s d)) c (IClosed c) ch).
+Check (C08_established_closed_paired :
+  forall l nproto cap p ch,
+  nth_error (r_ch (d_s (dfinal (dinit nproto cap) l))) p = Some ch ->
+  is_dead (dfinal (dinit nproto cap) l) (N.of_nat p) = false ->
+  filter is_conn_item (racc ch) = conn_reports l (drun (dinit nproto cap) l)).
+Check (C08_no_connection_given_up :
+  forall d o, d_gone d = [] -> d_gone (fst (dstep d o)) = []).
+Check (C08_established_before_fix_refuted :
+  let l := [DKill 0; DEst 7 2; DBase (RClosed 7); DBase (RDrain 1 9)] in
+  (map do_code (drun_before_fix (dinit 2 2) l) = [0; 3; 2; 0] /\
+   map do_got (drun_before_fix (dinit 2 2) l) = [[]; []; []; [IEst 7]]) /\
+  (map do_code (drun (dinit 2 2) l) = [0; 0; 3; 0] /\
+   map do_got (drun (dinit 2 2) l) = [[]; []; []; [IEst 7; IClosed 7]])).
+Check (C08_established_before_fix_observation :
   forall d c mask,
   d_dead d <> [] -> busy (d_s d) c = false -> existsb (N.eqb c) (d_gone d) = false ->
-  let d' := fst (dstep d (DEst c mask)) in
-  do_code (snd (dstep d (DEst c mask))) = 3 /\
+  let d' := fst (dstep_before_fix d (DEst c mask)) in
+  do_code (snd (dstep_before_fix d (DEst c mask))) = 3 /\
   d_dead d' = d_dead d /\ d_gone d' = c :: d_gone d /\
   (forall p ch', nth_error (r_ch (d_s d')) p = Some ch' ->
      exists ch, nth_error (r_ch (d_s d)) p = Some ch /\ rw ch' = rw ch /\ rdel ch' = rdel ch /\
@@ -123,10 +155,54 @@ Check (C08_no_closed_without_report :
   nth_error (r_ch (d_s d)) p = Some ch -> nth_error (r_ch (d_s (fst (dstep d o)))) p = Some ch' ->
   (forall b, o <> DBase (RClosed b)) ->
   ~ In (IClosed c) (racc ch) -> ~ In (IClosed c) (racc ch')).
-Check (C08_dead_protocol_leak_witness :
-  let l := [DKill 0; DEst 7 2; DBase (RClosed 7); DBase (RDrain 1 9)] in
-  map do_code (drun (dinit 2 2) l) = [0; 3; 2; 0] /\
-  map do_got (drun (dinit 2 2) l) = [[]; []; []; [IEst 7]]).
+Check (C08_alternation_unconditional :
+  forall tr s q, alternates (hc (s_ctxs s) q) (conn_evs q (concat (run s tr)))).
+Check (C08_panic_exactly_unknown_peer :
+  forall s dt i,
+  In OPanic (snd (step s dt i)) <-> exists p c, i = EClosed p c /\ find_ctx p (s_ctxs s) = None).
+Check (C08_no_panic_in_contract :
+  forall ka T n0 tr,
+  feasible 2 env0 (init ka T n0) tr = true -> ~ In OPanic (concat (run (init ka T n0) tr))).
+Check (C08_third_connection_ignored :
+  forall s p c cx h,
+  find_ctx p (s_ctxs s) = Some cx -> c_sec cx = Some h ->
+  snd (handle_ev s (EEst p c)) = [] /\ ka_activity_of s (EEst p c) = None /\
+  s_ctxs (fst (handle_ev s (EEst p c))) = s_ctxs s /\ s_last (fst (handle_ev s (EEst p c))) = s_last s /\
+  s_timers (fst (handle_ev s (EEst p c))) = s_timers s).
+Check (C08_closed_unknown_id_drops_secondary :
+  forall s p c cx,
+  find_ctx p (s_ctxs s) = Some cx -> h_id (c_prim cx) <> c ->
+  snd (handle_ev s (EClosed p c)) = [] /\
+  find_ctx p (s_ctxs (fst (handle_ev s (EClosed p c)))) = Some (mkCtx p (c_prim cx) None)).
+Check (C08_force_close_invisible :
+  forall s dt p fs fp, fst (step s dt (EForce p fs fp)) = fst (step s dt ENone)).
+Check (C08_force_close_targets :
+  forall e s dt i c,
+  conn_inv e (s_ctxs s) (s_pend s) -> In (OForce c) (snd (step s dt i)) ->
+  exists p fs fp, i = EForce p fs fp /\ In c (live_of p (e_live e))).
+Check (C08_force_close_result :
+  forall e s dt p fs fp r,
+  conn_inv e (s_ctxs s) (s_pend s) -> In (ORetF r) (snd (step s dt (EForce p fs fp))) ->
+  (r = 1 <-> live_of p (e_live e) = []) /\
+  (r = 0 -> exists c, hd_error (live_of p (e_live e)) = Some c /\ In (OForce c) (snd (step s dt (EForce p fs fp)))) /\
+  (r = 3 -> fp = true) /\ r <= 3).
+Check (C08_multi_stream_wellformed :
+  forall tr cap cfg n0 q k,
+  mfeasible 2 env0 (minit cap cfg n0) tr = true -> (k < length cfg)%nat ->
+  exists b, wf_run false (pevs q (comp_outs k (mrun (minit cap cfg n0) tr))) = Some b).
+Check (C08_multi_ids_fresh :
+  forall tr m,
+  m_next m + mdraws tr < ID_MOD ->
+  StronglySorted N.lt (flat_map mret (mrun m tr)) /\
+  Forall (fun i => m_next m <= i) (flat_map mret (mrun m tr))).
+Check (C08_multi_view_exact :
+  forall m dt e s c,
+  In s (m_svcs (fst (mstep m dt e))) -> find_ch c (s_chans s) <> None ->
+  strong s c = mstrong (m_svcs (fst (mstep m dt e))) c).
+Check (C08_multi_commands_fifo :
+  forall tr m c,
+  forallb (fun de => negb (closes c (snd de))) tr = true ->
+  taken c tr (mrun m tr) ++ qfind c (m_q (mfinal m tr)) = qfind c (m_q m) ++ issued c (mrun m tr)).
 Check (C08_needs_two_per_peer :
   exists tr q,
   feasible 3 env0 (init true 1000 0) tr = true /\
